@@ -25,6 +25,7 @@ import CtyModel.Lemmas.ConvertTotal
 import CtyModel.Lemmas.ConvertSafe
 import CtyModel.Lemmas.ConvertRoundtrip
 import CtyModel.Generated.PrimConv
+import CtyModel.ConvertUnify
 namespace CtyModel
 namespace C08
 open Convert Ty
@@ -291,6 +292,34 @@ theorem safe_sub_unsafe_offer (E : Env) (inT want : Ty) (hd : want.hasDyn = fals
   obtain ⟨p, hp⟩ := Option.isSome_iff_exists.mp h
   obtain ⟨c, hc, rfl⟩ := Option.map_eq_some_iff.mp hp
   simp [getConversionUnsafe, getConv, gck_up E inT want c hd hc]
+
+/-- Full statement: whatever `GetConversion` offers, `GetConversionUnsafe` offers too
+(any target, placeholders included; `E` any environment).  FALSE of the code — see
+`safe_sub_unsafe_counterexample`: with a placeholder as the map element type the
+element type is chosen by `unify(attribute types, unsafe)`, and the unsafe
+unification fails where the safe one succeeds. -/
+def SafeSubUnsafe : Prop :=
+  ∀ (E : Env) (inT want : Ty), (getConversion E inT want).isSome = true →
+    (getConversionUnsafe E inT want).isSome = true
+
+/-- the witness, in the environment whose `unify` is the transliteration of unify.go
+(`unifyTyF`, diffed against convert.Unify / UnifyUnsafe on every run):
+`Unify([map(tuple(string)), object{a: bool, m: any, zz: string}])` is `map(any)` but
+`UnifyUnsafe` of the same list is NilType -/
+def subWitnessT : Ty :=
+  .object ["x", "y"] [.map (.tuple [.string]), .object ["a", "m", "zz"] [.bool, .dyn, .string]
+    [false, false, false]] [false, false]
+
+theorem safe_sub_unsafe_counterexample :
+    (getConversion (Env.ofUnify (unifyTyF 12)) subWitnessT (.map .dyn)).isSome = true ∧
+    (getConversionUnsafe (Env.ofUnify (unifyTyF 12)) subWitnessT (.map .dyn)).isSome = false := by
+  decide
+
+theorem safeSubUnsafe_false : ¬ SafeSubUnsafe := by
+  intro h
+  have := h (Env.ofUnify (unifyTyF 12)) subWitnessT (.map .dyn) safe_sub_unsafe_counterexample.1
+  rw [safe_sub_unsafe_counterexample.2] at this
+  exact absurd this (by decide)
 
 /-! ## Round trips through the inverse conversion -/
 
